@@ -27,6 +27,11 @@ type Val struct {
 	Nil    bool            // nil pointer / nil interface
 	Ptr    *Val            // pointer to value
 	Tag    string          // opaque identity (for "which operand was returned")
+	// Complete: a struct value built from a composite literal (fields not listed are zero)
+	Complete bool
+	// MapLit / MapPkg: a map built from a composite literal with constant keys (a lookup table)
+	MapLit *ast.CompositeLit
+	MapPkg *packages.Package
 }
 
 func (v *Val) String() string {
@@ -115,6 +120,13 @@ func (env *Env) eval(e ast.Expr) *Val {
 				return env.eval(rhs)
 			}
 		}
+		// a package-level variable of the module with an initialiser that is never reassigned (a lookup table)
+		if v, ok := o.(*types.Var); ok && v.Pkg() != nil && v.Parent() == v.Pkg().Scope() {
+			if init, ipkg := env.P.pkgVarInit(v); init != nil {
+				ce := env.child(ipkg)
+				return ce.eval(init)
+			}
+		}
 		env.fail(e, "identifier "+x.Name)
 	case *ast.SelectorExpr:
 		base := env.eval(x.X)
@@ -124,6 +136,13 @@ func (env *Env) eval(e ast.Expr) *Val {
 		if base != nil && base.Fields != nil {
 			if f, ok := base.Fields[x.Sel.Name]; ok {
 				return f
+			}
+			if base.Complete {
+				if tv, ok := info.Types[e]; ok {
+					if z := zeroVal(tv.Type); z != nil {
+						return z
+					}
+				}
 			}
 		}
 		env.fail(e, "selector "+types.ExprString(e))
@@ -191,8 +210,38 @@ func (env *Env) eval(e ast.Expr) *Val {
 		}
 	case *ast.CallExpr:
 		return env.evalCall(x)
+	case *ast.IndexExpr:
+		base := env.eval(x.X)
+		if base != nil && base.MapLit != nil {
+			key := env.eval(x.Index)
+			if key.C == nil {
+				env.fail(e, "table lookup with a non-constant key")
+			}
+			me := env.child(base.MapPkg)
+			for _, el := range base.MapLit.Elts {
+				kv, ok := el.(*ast.KeyValueExpr)
+				if !ok {
+					continue
+				}
+				k := me.eval(kv.Key)
+				if k.C != nil && constant.Compare(k.C, token.EQL, key.C) {
+					return me.eval(kv.Value)
+				}
+			}
+			if tv, ok := info.Types[e]; ok {
+				if z := zeroVal(tv.Type); z != nil {
+					return z
+				}
+			}
+		}
+		env.fail(e, "index "+types.ExprString(e))
 	case *ast.CompositeLit:
-		v := &Val{Fields: map[string]*Val{}}
+		if tv, ok := info.Types[x]; ok {
+			if _, isMap := tv.Type.Underlying().(*types.Map); isMap {
+				return &Val{MapLit: x, MapPkg: env.Pkg}
+			}
+		}
+		v := &Val{Fields: map[string]*Val{}, Complete: true}
 		for _, el := range x.Elts {
 			if kv, ok := el.(*ast.KeyValueExpr); ok {
 				if id, ok := kv.Key.(*ast.Ident); ok {
@@ -204,6 +253,64 @@ func (env *Env) eval(e ast.Expr) *Val {
 	}
 	env.fail(e, types.ExprString(e))
 	return nil
+}
+
+// zeroVal is the zero value of a type in the abstract domain (nil for types the domain does not model).
+func zeroVal(t types.Type) *Val {
+	switch u := t.Underlying().(type) {
+	case *types.Basic:
+		switch {
+		case u.Info()&types.IsBoolean != 0:
+			return boolVal(false)
+		case u.Info()&types.IsInteger != 0:
+			return intVal(0)
+		case u.Info()&types.IsString != 0:
+			return strVal("")
+		}
+	case *types.Pointer, *types.Interface, *types.Slice, *types.Map, *types.Signature:
+		return &Val{Nil: true}
+	case *types.Struct:
+		return &Val{Fields: map[string]*Val{}, Complete: true}
+	}
+	return nil
+}
+
+// pkgVarInit returns the initialiser of a package-level variable of the module that is assigned nowhere else.
+func (p *Prog) pkgVarInit(v *types.Var) (ast.Expr, *packages.Package) {
+	for _, pkg := range p.PkgList {
+		if pkg.Types != v.Pkg() {
+			continue
+		}
+		var init ast.Expr
+		assigned := false
+		for _, file := range pkg.Syntax {
+			ast.Inspect(file, func(x ast.Node) bool {
+				switch st := x.(type) {
+				case *ast.ValueSpec:
+					for i, nm := range st.Names {
+						if pkg.TypesInfo.Defs[nm] == v && i < len(st.Values) {
+							init = st.Values[i]
+						}
+					}
+				case *ast.AssignStmt:
+					for _, l := range st.Lhs {
+						if objOf(pkg.TypesInfo, l) == v {
+							assigned = true
+						}
+						if ix, ok := ast.Unparen(l).(*ast.IndexExpr); ok && objOf(pkg.TypesInfo, ix.X) == v {
+							assigned = true
+						}
+					}
+				}
+				return true
+			})
+		}
+		if assigned {
+			return nil, nil
+		}
+		return init, pkg
+	}
+	return nil, nil
 }
 
 func (env *Env) evalCall(c *ast.CallExpr) *Val {
@@ -270,7 +377,26 @@ func (env *Env) evalCall(c *ast.CallExpr) *Val {
 			i++
 		}
 	}
+	// named results start as zero values; a bare return yields them
+	var named []types.Object
+	if fi.Decl.Type.Results != nil {
+		for _, fld := range fi.Decl.Type.Results.List {
+			for _, nm := range fld.Names {
+				if o := fi.Pkg.TypesInfo.Defs[nm]; o != nil {
+					named = append(named, o)
+					if z := zeroVal(o.Type()); z != nil {
+						ce.Vars[o] = z
+					}
+				}
+			}
+		}
+	}
 	ret, done := ce.execBlock(fi.Decl.Body.List)
+	if done && len(ret) == 0 && len(named) == 1 {
+		if v, ok := ce.Vars[named[0]]; ok {
+			return v
+		}
+	}
 	if !done || len(ret) != 1 {
 		env.fail(c, "callee "+fi.Key+" does not return a single value on this path")
 	}
